@@ -10,6 +10,9 @@ From Lungo.Proofs Require Import OrderLaws CompareOrder EntryLemmas IndexInv Col
 Import ListNotations.
 Open Scope Z_scope.
 
+Lemma or_False_iff (x : sdoc) (c : coll) : (False \/ In x (c_docs c)) <-> In x (c_docs c).
+Proof. tauto. Qed.
+
 Section CollInv.
   Variable matchf : doc -> doc -> res bool.
   Variable applyf : doc -> doc -> doc -> bool -> list doc -> Z -> res (doc * list (string * value)).
@@ -594,6 +597,237 @@ Section CollInv.
     destruct (update_facts c fresh matched newl Hinv Hlt Hincl Hndm Hids)
       as [Hlen [Hfd [Hndn _]]].
     apply replace_docs_spec; auto.
+  Qed.
+
+  (* ---------------------------------------------------------------- *)
+  (* CreateIndex *)
+
+  Definition index_name (name : string) (cf : iconfig) : res string :=
+    match name with EmptyString => config_name cf | _ => Ok name end.
+
+  (* an existing index has a BSON-equal key specification *)
+  Definition key_clash (c : coll) (cf : iconfig) : bool :=
+    existsb (fun ni : string * index =>
+               match compare (VDoc (cf_key cf)) (VDoc (cf_key (ix_config (snd ni)))) with
+               | Eq => true | _ => false end) (c_indexes c).
+
+  Definition create_named (c : coll) (n : string) (cf : iconfig) : outcome string :=
+    match find_index (c_indexes c) n with
+    | Some ix => if config_equal cf (ix_config ix) then (c, inl n) else fail c EErr
+    | None =>
+        if key_clash c cf then fail c EErr
+        else
+          match new_index cf with
+          | Ok ix =>
+              match build ix (c_docs c) with
+              | (ix', Some e) => fail (mkColl (c_docs c) (set_index (c_indexes c) n ix')) e
+              | (ix', None) => (mkColl (c_docs c) (set_index (c_indexes c) n ix'), inl n)
+              end
+          | r => failr c r
+          end
+    end.
+
+  Lemma coll_create_index_eq c name cf :
+    coll_create_index c name cf =
+    match index_name name cf with
+    | Ok n => create_named c n cf
+    | r => failr c r
+    end.
+  Proof.
+    unfold Collection.coll_create_index, index_name, create_named, key_clash.
+    destruct name as [|a s]; cbv zeta beta iota.
+    - destruct (config_name cf); reflexivity.
+    - reflexivity.
+  Qed.
+
+  Lemma key_clash_iff c cf :
+    key_clash c cf = true <->
+    exists m ix, In (m, ix) (c_indexes c) /\
+                 compare (VDoc (cf_key cf)) (VDoc (cf_key (ix_config ix))) = Eq.
+  Proof.
+    unfold key_clash. rewrite existsb_exists. split.
+    - intros [[m ix] [Hin H]]. cbn [snd] in H. exists m, ix. split; auto.
+      destruct (compare (VDoc (cf_key cf)) (VDoc (cf_key (ix_config ix)))); auto; discriminate.
+    - intros [m [ix [Hin H]]]. exists (m, ix). split; auto. cbn [snd]. rewrite H. reflexivity.
+  Qed.
+
+  (* creating an index that exists with the same definition is a no-op *)
+  Theorem create_same_is_noop c name cf n ix :
+    index_name name cf = Ok n ->
+    find_index (c_indexes c) n = Some ix ->
+    config_equal cf (ix_config ix) = true ->
+    coll_create_index c name cf = (c, inl n).
+  Proof.
+    intros Hn Hf He. rewrite coll_create_index_eq, Hn. unfold create_named.
+    rewrite Hf, He. reflexivity.
+  Qed.
+
+  (* creating a conflicting one fails and changes nothing *)
+  Theorem create_conflicting_fails c name cf n :
+    index_name name cf = Ok n ->
+    (exists ix, find_index (c_indexes c) n = Some ix /\ config_equal cf (ix_config ix) = false) \/
+    (find_index (c_indexes c) n = None /\
+     exists m ix, In (m, ix) (c_indexes c) /\
+                  compare (VDoc (cf_key cf)) (VDoc (cf_key (ix_config ix))) = Eq) ->
+    coll_create_index c name cf = (c, inr EErr).
+  Proof.
+    intros Hn H. rewrite coll_create_index_eq, Hn. unfold create_named, fail.
+    destruct H as [[ix [Hf He]]|[Hf Hk]].
+    - rewrite Hf, He. reflexivity.
+    - apply key_clash_iff in Hk. rewrite Hf, Hk. reflexivity.
+  Qed.
+
+  Lemma new_index_inv cf ix0 :
+    new_index cf = Ok ix0 -> ix_wf ix0 /\ ix_entries ix0 = [] /\ ix_config ix0 = cf.
+  Proof.
+    intro H.
+    assert (Hex : exists cols, ix0 = mkIndex cf cols []).
+    { revert H. unfold new_index. destruct (cf_key cf) as [|kv k]; [discriminate|].
+      destruct (columns (kv :: k)) as [cols| | | |]; cbn [bind]; try discriminate.
+      destruct ((0 <? cf_expiry cf) && (1 <? len (kv :: k))); [discriminate|].
+      intro H. inversion H. eauto. }
+    destruct Hex as [cols ->]. unfold ix_wf. simpl. auto.
+  Qed.
+
+  Lemma coll_create_index_inl c name cf c' n :
+    coll_create_index c name cf = (c', inl n) ->
+    index_name name cf = Ok n /\
+    ((exists ix, find_index (c_indexes c) n = Some ix /\
+                 config_equal cf (ix_config ix) = true /\ c' = c) \/
+     (find_index (c_indexes c) n = None /\ key_clash c cf = false /\
+      exists ix0 ix', new_index cf = Ok ix0 /\ build ix0 (c_docs c) = (ix', None) /\
+                      c' = mkColl (c_docs c) (c_indexes c ++ [(n, ix')]))).
+  Proof.
+    rewrite coll_create_index_eq. unfold failr.
+    destruct (index_name name cf) as [n0| | | |]; try discriminate.
+    unfold create_named, fail, failr.
+    destruct (find_index (c_indexes c) n0) as [ix|] eqn:Hf.
+    - destruct (config_equal cf (ix_config ix)) eqn:He; try discriminate.
+      intro H. inversion H; subst. split; auto. left. eauto.
+    - destruct (key_clash c cf) eqn:Hk; try discriminate.
+      destruct (new_index cf) as [ix0| | | |] eqn:Hn; try discriminate.
+      destruct (build ix0 (c_docs c)) as [ix' [e|]] eqn:Hb; try discriminate.
+      intro H. inversion H; subst. split; auto. right. repeat split; auto.
+      exists ix0, ix'. rewrite (set_index_none _ _ _ Hf). auto.
+  Qed.
+
+  Theorem coll_create_index_inv c fresh name cf c' n :
+    coll_inv c -> has_id_index c -> ids_lt c fresh ->
+    coll_create_index c name cf = (c', inl n) ->
+    coll_inv c' /\ has_id_index c' /\ ids_lt c' fresh /\ c_docs c' = c_docs c.
+  Proof.
+    intros Hinv Hid Hlt H. apply coll_create_index_inl in H.
+    destruct H as [_ [[ix [_ [_ ->]]]|[Hf [_ [ix0 [ix' [Hn [Hb ->]]]]]]]]; [auto|].
+    destruct Hinv as [Hnd [Hnn G]].
+    destruct (new_index_inv cf ix0 Hn) as [Hw [He _]].
+    destruct (build_good matchf (fun _ => False) ix0 (c_docs c) ix' Hb (ix_good_empty ix0 Hw He))
+      as [G' _]; auto.
+    { intros sd _ d []. }
+    split; [|split; [|split]]; auto.
+    - split; [exact Hnd|]. split.
+      + simpl. rewrite map_app. simpl. apply NoDup_snoc; auto.
+        apply find_index_none. exact Hf.
+      + simpl. apply Forall_app. split; [exact G|]. constructor; [|constructor]. simpl.
+        apply (ix_good_ext matchf _ _ ix' (fun x => (or_False_iff x c))). exact G'.
+    - destruct Hid as [ix [Hi Hc]]. exists ix. split; auto. simpl.
+      apply find_index_app_some. exact Hi.
+  Qed.
+
+  (* ---------------------------------------------------------------- *)
+  (* DropIndex *)
+
+  Lemma coll_drop_index_shape c name c' r :
+    coll_drop_index c name = (c', r) ->
+    exists p, c' = mkColl (c_docs c) (filter p (c_indexes c)) /\
+              find_index (filter p (c_indexes c)) "_id_" = find_index (c_indexes c) "_id_" /\
+              forall dropped, r = inl dropped -> ~ In "_id_" dropped.
+  Proof.
+    assert (Hall : exists p, c = mkColl (c_docs c) (filter p (c_indexes c)) /\
+              find_index (filter p (c_indexes c)) "_id_" = find_index (c_indexes c) "_id_").
+    { exists (fun _ => true). destruct c as [docs ixs]. simpl.
+      assert (Hfl : filter (fun _ : string * index => true) ixs = ixs)
+        by (induction ixs as [|a l IH]; simpl; [|rewrite IH]; reflexivity).
+      rewrite Hfl. auto. }
+    unfold coll_drop_index, fail. destruct name as [|a s]; cbv beta iota.
+    - intro H. inversion H; subst.
+      exists (fun ni : string * index => String.eqb (fst ni) "_id_"). split; auto. split.
+      + apply find_index_filter_same.
+      + intros dropped Hd. inversion Hd; subst. intro Hin. apply in_map_iff in Hin.
+        destruct Hin as [x [Hx Hin]]. apply filter_In in Hin. destruct Hin as [_ Hin].
+        rewrite Hx, String.eqb_refl in Hin. discriminate.
+    - destruct (String.eqb (String a s) "_id_") eqn:E.
+      + intro H. inversion H; subst. destruct Hall as [p [H1 H2]]. exists p.
+        split; auto. split; auto. intros dropped Hd. discriminate.
+      + apply String.eqb_neq in E.
+        destruct (find_index (c_indexes c) (String a s)).
+        * intro H. inversion H; subst.
+          exists (fun ni : string * index => negb (String.eqb (fst ni) (String a s))).
+          split; auto. split.
+          -- apply find_index_filter_other. exact E.
+          -- intros dropped Hd. inversion Hd; subst. intros [Heq|[]]. congruence.
+        * intro H. inversion H; subst. destruct Hall as [p [H1 H2]]. exists p.
+          split; auto. split; auto. intros dropped Hd. discriminate.
+  Qed.
+
+  (* dropping indexes never removes the _id index (whatever the outcome),
+     and "_id_" is never among the dropped names *)
+  Theorem drop_never_removes_id c name c' r :
+    coll_drop_index c name = (c', r) ->
+    find_index (c_indexes c') "_id_" = find_index (c_indexes c) "_id_" /\
+    (forall dropped, r = inl dropped -> ~ In "_id_" dropped).
+  Proof.
+    intro H. apply coll_drop_index_shape in H. destruct H as [p [-> [H1 H2]]]. simpl. auto.
+  Qed.
+
+  Theorem coll_drop_index_inv c fresh name c' r :
+    coll_inv c -> has_id_index c -> ids_lt c fresh ->
+    coll_drop_index c name = (c', r) ->
+    coll_inv c' /\ has_id_index c' /\ ids_lt c' fresh /\ c_docs c' = c_docs c.
+  Proof.
+    intros [Hnd [Hnn G]] [ix [Hi Hc]] Hlt H. apply coll_drop_index_shape in H.
+    destruct H as [p [-> [H1 _]]]. split; [|split; [|split]]; auto.
+    - split; [exact Hnd|]. split.
+      + simpl. apply NoDup_map_filter. exact Hnn.
+      + simpl. apply Forall_filter'. exact G.
+    - exists ix. simpl. rewrite H1. auto.
+  Qed.
+
+  (* ---------------------------------------------------------------- *)
+  (* an index equals the one rebuilt from scratch over the documents *)
+
+  Theorem rebuild_equal c n ix :
+    coll_inv c -> In (n, ix) (c_indexes c) ->
+    exists ix0 ix',
+      new_index (ix_config ix) = Ok ix0 /\
+      build ix0 (c_docs c) = (ix', None) /\
+      ix_config ix' = ix_config ix /\ ix_cols ix' = ix_cols ix /\
+      nodup_entries (ix_entries ix') /\ nodup_entries (ix_entries ix) /\
+      forall t id, mem (ix_entries ix') t id <-> mem (ix_entries ix) t id.
+  Proof.
+    intros [Hnd [_ G]] Hin. rewrite Forall_forall in G.
+    destruct (G _ Hin) as [Hok [Hu Hw]]. simpl in Hok, Hu, Hw.
+    set (ix0 := mkIndex (ix_config ix) (ix_cols ix) []).
+    assert (Hs0 : same_def ix ix0) by (split; reflexivity).
+    assert (G0 : ix_good (fun _ => False) ix0).
+    { apply ix_good_empty; [|reflexivity]. apply (ix_wf_same ix ix0 Hs0 Hw). }
+    assert (F0 : forall sd, In sd (c_docs c) -> fresh_id (fun _ : sdoc => False) (fst sd))
+      by (intros sd _ d []).
+    destruct (build_succeeds matchf (fun _ => False) ix0 (c_docs c) G0 F0 Hnd) as [ix' Hb].
+    - intros sd Hsd. apply (covers_ok_same matchf ix ix0 _ Hs0).
+      destruct Hok as [_ [Hc _]]. apply Hc. exact Hsd.
+    - apply (ix_unique_ok_same matchf _ ix ix0 Hs0).
+      apply (ix_unique_ok_anti matchf (docs_of c)); auto. intros x [[]|Hx]. exact Hx.
+    - destruct (build_good matchf _ ix0 (c_docs c) ix' Hb G0 F0 Hnd) as [[Hok' _] Hs'].
+      exists ix0, ix'. split; [exact Hw|]. split; [exact Hb|].
+      destruct Hs' as [Hc1 Hc2]. simpl in Hc1, Hc2.
+      split; [congruence|]. split; [congruence|].
+      destruct Hok as [Hn1 [_ Hm1]]. destruct Hok' as [Hn2 [_ Hm2]].
+      split; auto. split; auto.
+      intros t id. rewrite Hm1, Hm2.
+      assert (Hs : same_def ix ix') by (split; congruence).
+      split; intros [d [Hp Hk]]; exists d.
+      + destruct Hp as [[]|Hp]. split; auto. apply (keyed_same matchf ix ix' d t Hs). exact Hk.
+      + split; [right; exact Hp|]. apply (keyed_same matchf ix ix' d t Hs). exact Hk.
   Qed.
 
 End CollInv.
